@@ -2,6 +2,7 @@
 #include "error_code.h" // for SocketError
 
 #include <cassert> // for assert
+#include <cerrno> // for EINTR
 #include <limits> // for std::numeric_limits
 
 namespace sockpuppet {
@@ -21,9 +22,14 @@ int DoPoll(pollfd *pfds, size_t count, int timeoutMs)
 #endif // _WIN32
 }
 
-int DoPoll(pollfd pfd, int timeoutMs)
+bool IsInterrupted(int result)
 {
-  return DoPoll(&pfd, 1, timeoutMs);
+#ifdef _WIN32
+  (void)result;
+  return false;
+#else
+  return ((result < 0) && (errno == EINTR));
+#endif // _WIN32
 }
 
 int ToMsec(Duration timeout)
@@ -38,9 +44,27 @@ int ToMsec(Duration timeout)
   return (msec < 0 ? -1 : static_cast<int>(msec));
 }
 
+// a signal handled while waiting must not fail the wait: resume it with the time remaining
+int DoPoll(pollfd *pfds, size_t count, Duration timeout)
+{
+  int result;
+  if(timeout.count() <= 0) {
+    do {
+      result = DoPoll(pfds, count, ToMsec(timeout));
+    } while(IsInterrupted(result));
+  } else {
+    DeadlineLimited deadline(timeout);
+    while(IsInterrupted(result = DoPoll(pfds, count, ToMsec(deadline.Remaining())))) {
+      deadline.Tick();
+    }
+  }
+  return result;
+}
+
 bool Wait(SOCKET fd, short events, Duration timeout)
 {
-  if(auto result = DoPoll(pollfd{fd, events, 0}, ToMsec(timeout))) {
+  pollfd pfd{fd, events, 0};
+  if(auto result = DoPoll(&pfd, 1U, timeout)) {
     if(result < 0) {
       throw std::system_error(
           SocketError(),
@@ -67,7 +91,7 @@ bool WaitWritable(SOCKET fd, Duration timeout)
 
 bool Wait(std::vector<pollfd> &pfds, Duration timeout)
 {
-  if(auto result = DoPoll(pfds.data(), pfds.size(), ToMsec(timeout))) {
+  if(auto result = DoPoll(pfds.data(), pfds.size(), timeout)) {
     if(result < 0) {
       throw std::system_error(
           SocketError(),
